@@ -242,15 +242,6 @@ Proof.
   cbn [unescape]. rewrite H37, HS, andb_false_r, (IH H2). cbn [mode_is_query umap]. destruct (is_ch 43 c); reflexivity.
 Qed.
 
-(* every '%' is followed by two hexadecimal digits *)
-Fixpoint pct_ok (s : string) : bool :=
-  match s with
-  | EmptyString => true
-  | String c r =>
-      if is_ch 37 c then match r with String h1 (String h2 r') => is_hex h1 && is_hex h2 && pct_ok r' | _ => false end
-      else pct_ok r
-  end.
-
 Lemma pct_ok_unescape_path s : pct_ok s = true -> exists p, unescape MPath s = UOk p.
 Proof.
   remember (String.length s) as n eqn:Hn. revert s Hn.
@@ -281,38 +272,6 @@ Proof.
 Qed.
 
 (* ================================================================ the common class of endpoints *)
-(* RFC 3986: unreserved; sub-delims; pchar and '/' and '%' *)
-Definition unreserved (c : ascii) : bool := is_alnum c || ch_in [45; 46; 95; 126]%N c.                      (* - . _ ~ *)
-Definition sub_delim (c : ascii) : bool := ch_in [33; 36; 38; 39; 40; 41; 42; 43; 44; 59; 61]%N c.          (* ! $ & ' ( ) * + , ; = *)
-Definition path_byte (c : ascii) : bool := unreserved c || sub_delim c || ch_in [58; 64; 47; 37]%N c.       (* : @ / % *)
-Definition query_byte (c : ascii) : bool := negb (is_ctl c) && negb (is_ch 35 c).                           (* no control byte, no # *)
-
-Fixpoint strip_prefix (p s : string) : option string :=
-  match p with
-  | EmptyString => Some s
-  | String a p' => match s with String b s' => if Ascii.eqb a b then strip_prefix p' s' else None | EmptyString => None end
-  end.
-
-(* absolute http / https URL, lower-case scheme; host = a registered name or IPv4 address written with unreserved
-   characters only (no escapes, no userinfo, no IPv6 literal), optional decimal port; path empty or starting with '/', made of
-   unreserved / sub-delim / ':' / '@' / '/' characters and well-formed %XX escapes; optional query of any bytes but control
-   characters and '#'; no fragment *)
-Definition common_rest (r : string) : bool :=
-  let '(hp, q) := match cut_byte 63 r with Some (a, b) => (a, Some b) | None => (r, None) end in
-  let '(authority, path) := break_slash hp in
-  let '(host, port) := match cut_byte 58 authority with Some (h, p) => (h, Some p) | None => (authority, None) end in
-  nonempty host && str_all unreserved host && match port with Some p => str_all is_digit p | None => true end
-  && str_all path_byte path && pct_ok path && match q with Some q => str_all query_byte q | None => true end.
-
-Definition common_endpoint (u : string) : bool :=
-  match strip_prefix "https://" u with
-  | Some r => common_rest r
-  | None => match strip_prefix "http://" u with Some r => common_rest r | None => false end
-  end.
-
-(* the endpoint without its query: the text before the first '?' *)
-Definition endpoint_base (u : string) : string := match cut_byte 63 u with Some (a, _) => a | None => u end.
-
 Lemma strip_prefix_inv p s r : strip_prefix p s = Some r -> s = p ++ r.
 Proof.
   revert s. induction p as [|a p IH]; intros s; cbn [strip_prefix].
